@@ -254,7 +254,10 @@ class ParseMCNPCell:
             elif name == 'trcl':
                 keywords['trcl'] = self.parse_trcl_kw(elt, kw_list)
             elif name == 'u':
-                keywords['u'] = int(mcnp_float(kw_list.pop()))
+                # a negative universe number only tells MCNP that the cell is
+                # not cut by the boundary of the filled cell; it is the same
+                # universe
+                keywords['u'] = abs(int(mcnp_float(kw_list.pop())))
             elif name == 'rho':
                 # only relevant for LIKE n BUT cells
                 keywords['density'] = kw_list.pop()
